@@ -65,6 +65,11 @@ CHECKS = {
    text="Each fault (syntax error, unknown mnemonic, wrong register class, wrong operand kind, immediate and branch out of range, missing operand, undefined symbol in an instruction / .db / .dw / .set / .if, duplicate label, .db and .dw value out of range, unknown directive, .error) is inserted as one line at every live position of every corpus program; the build must fail and the error text must contain that line's number as a decimal token. All 1024 placements of nothing/.message/.warning/.error over five slots of a conditional skeleton decide: .error fails wherever assembled (naming its line), messages never change the image and are listed in source order with their own line numbers.",
    note="Trusted: the lexer's liveness/segment context and the decimal token match (lines are shifted by 700 comment lines, away from every literal of the corpus).",
    ref="3/C15"),
+ "C16": dict(cat="exploration", engine="E1+E3 in E5",
+   technique="bounded-exhaustive enumeration of single-line programs (head x operand lists x contexts), structured size ladders and single-token corpus mutations, each executed in a sandboxed worker process (1 GiB, 8 MiB stack, watchdog)",
+   text="4.3 M (thorough: far more) distinct source texts: every mnemonic and every directive (both spellings) x every operand list of length 0..2 (3) over a 46-text dictionary of valid, boundary and hostile operands x 10 context prefixes; geometric ladders for every nesting depth, length and magnitude the language has (parentheses, unary and function chains, operator chains, operand lists, lines, labels, strings, numbers, line counts, nested conditionals, .equ chains, macro and include nesting, .org/.byte magnitudes up to 2^63 and negative); every token of every corpus program deleted, duplicated and replaced by every dictionary entry. Every case must return a result or an error value: a panic (by site), abort, stack overflow, allocation beyond 1 GiB or a hang (re-checked alone with 20 s) is a violation.",
+   note="Trusted: the worker pool (classification of a dead worker by exit signal and stderr tail). The quantifier's 'random multi-line programs and byte mutations' is sampling and is not claimed (DESIGN.md section 4).",
+   ref="3/C16"),
  "C12": dict(cat="exploration", engine="E1",
    technique="exhaustive enumeration of (device row x memory x {capacity-1, capacity, capacity+1} x way of reaching it) and of the shipped part-definition files' declared figures",
    text="Every row of the device table and 'no device' x flash/EEPROM/RAM x one below, at and one above capacity x every way of getting there (.org+item, data blocks, a two-word instruction ending at the limit, .byte n, interleaved segments): Ok, Ok, Err, with ram_filling = data extent and the reported sizes = the row. Every includes/*def.inc is read by the harness's own reader and its four #pragma AVRPART MEMORY figures are compared with what the tool reports/enforces for that device. Unknown and second .device must fail.",
